@@ -110,7 +110,7 @@ def run(ctx, rep):
             last_write = True
         if n in write_set or n in push_set:
             synced = False
-        if n in mut_set and not cmatch(g.term(n), r"IndexMut<I>>::index_mut$"):
+        if n in mut_set and not cmatch(g.term(n), r"IndexMut<I>>::index_mut$|slice::<impl \[T\]>::(first_mut|last_mut|get_mut|iter_mut)$|ops::DerefMut>?::deref_mut$|Vec::<T, A>::(as_mut_slice|iter_mut)$"):
             le1 = False
         for origin, v in norm_learn(learn):
             cn = origin_call(origin)
@@ -118,7 +118,7 @@ def run(ctx, rep):
                 return None      # dead by R04.5: every request has sync = true
             if c04.len_le1_fact(g, origin, v):
                 le1 = True
-            if cn is not None and cmatch(g.term(cn), r"Vec::<T, A>::is_empty$") and v == "true" and c04.FILES(event_args(g, cn)[0]):
+            if c04.files_empty_fact(g, cn, v):
                 le1, synced, failed = True, True, False     # no file listed at all: nothing is unsynced
             if cn in sync_set:
                 if v in ERRV:
